@@ -18,13 +18,21 @@ type filterConf struct {
 	keyWhite, keyBlack []string
 	slots              []string
 	lua                bool
+	// unset lists are handed over as empty non-nil slices (what parsing an empty configuration value leaves) instead of nil
+	emptyNotNil bool
 }
 
 func (f filterConf) apply() {
 	o := &conf.Options
-	o.FilterDBWhitelist, o.FilterDBBlacklist = f.dbWhite, f.dbBlack
-	o.FilterKeyWhitelist, o.FilterKeyBlacklist = f.keyWhite, f.keyBlack
-	o.FilterSlot, o.FilterLua = f.slots, f.lua
+	l := func(x []string) []string {
+		if len(x) == 0 && f.emptyNotNil {
+			return []string{}
+		}
+		return x
+	}
+	o.FilterDBWhitelist, o.FilterDBBlacklist = l(f.dbWhite), l(f.dbBlack)
+	o.FilterKeyWhitelist, o.FilterKeyBlacklist = l(f.keyWhite), l(f.keyBlack)
+	o.FilterSlot, o.FilterLua = l(f.slots), f.lua
 }
 
 func resetFilters() { filterConf{}.apply() }
@@ -89,6 +97,7 @@ var filterPrefixes = []string{"a", "ab", "abc", "b", "k:", "{", "user:", "redis-
 
 func drawFilterConf(t *rapid.T, withSlots bool, keys []string) filterConf {
 	var f filterConf
+	f.emptyNotNil = rapid.Bool().Draw(t, "emptyListsNotNil")
 	dbs := rapid.SliceOfNDistinct(rapid.SampledFrom([]string{"0", "1", "2", "3", "10", "11", "15"}), 1, 3, func(s string) string { return s })
 	switch rapid.IntRange(0, 3).Draw(t, "dbfilter") {
 	case 0:
